@@ -49,11 +49,30 @@ def configs(tier):
     return cfgs
 
 
+def warm_up(cls):
+    """another loader of the same class, with different parameters, is built first: class-level state would leak into the one under test"""
+    from gcmpy.names.joint_degree_names import JointDegreeNames as JN
+
+    name = cls.__name__
+    try:
+        if name == "JointDegreeManual":
+            cls({JN.JDD: {(9, 9): 1.0}, JN.MOTIF_SIZES: [2, 3]})
+        elif name == "JointDegreeEmpirical":
+            cls({JN.JDS: [(7,), (7,), (8,)], JN.MOTIF_SIZES: [2]})
+        elif name == "JointDegreeMarginal":
+            cls({JN.MOTIF_SIZES: [2, 3], JN.ARR_FP: [lambda k: 0.25 + k, lambda k: 1.0 / (1 + k)], JN.LOW_HIGH_DEGREE_BOUND: [(0, 3), (1, 4)]})
+        elif name == "JointDegreeFunction":
+            cls({JN.MOTIF_SIZES: [2, 3], JN.FP: lambda jd: 1.0 + sum(jd), JN.LOW_HIGH_DEGREE_BOUND: [(0, 2), (0, 2)]})
+    except Exception:  # noqa  (failures of the loader itself show up in the run under test)
+        pass
+
+
 def make(ctx, cls, typ, params, via):
     from gcmpy.joint_degree.joint_degree_distribution import JointDegreeDistribution
     from gcmpy.joint_degree.joint_degree_type import JointDegreeType
     from gcmpy.names.joint_degree_names import JointDegreeNames as JN
 
+    warm_up(cls)
     if via == "direct":
         return cls(params)
     params = dict(params)
